@@ -380,11 +380,12 @@ where
     A: RingBuf<Item = T> + Send,
 {
 }
-// The channel is thread-safe as long as a thread-safe mutex is used
+// The channel is thread-safe as long as a thread-safe mutex is used.
+// Since other threads operate on the buffer, it needs to be `Send` too.
 unsafe impl<MutexType: RawMutex + Sync, T: Send, A> Sync
     for GenericChannel<MutexType, T, A>
 where
-    A: RingBuf<Item = T>,
+    A: RingBuf<Item = T> + Send,
 {
 }
 
